@@ -46,7 +46,7 @@ prop(
         "C4 text codecs with loop invariants over spec functions val58/pow58, directory-hash helpers, module wrappers) are "
         "turned into verification conditions from the current source by vf/pyvc.py and discharged by z3 / cvc5; induction "
         "lemmas have their own obligations (vf/lemmas.py). AggregateHasher.hash_file (read-once multi-format loop over a dict "
-        "of hashers) is proved as well (per-key invariants, separation of the hasher objects). Only seal_file_path (two region contracts, 357-362 of 365 "
+        "of hashers) is proved as well (per-key invariants, separation of the hasher objects). Only the judging half of seal_file_path (region contract `judge`, 307-308 of 308 "
         "obligations from run to run) stays bounded. The bounded part also samples the assumed library contracts against hashlib/xxhash test vectors."
     ),
     assumptions=[
@@ -161,7 +161,7 @@ other(
     "Proved: find_original / find_first / find_existing_hash_formats (loop invariants over generations and entries, ghost witness "
     "lists), append_file_hash's judgement (original iff never recorded as original, else new / verified / failed against the FIRST "
     "entry of the format in the pre-state history; result == not failed), _validate_new_hash_list, the child-history mapping and "
-    "nearest-ancestor routing, lemmas L_first_excl / L_orig_excl. Bounded: seal_file_path's ordering of calls (357-362 of 365 obligations "
+    "nearest-ancestor routing, lemmas L_first_excl / L_orig_excl. Bounded: the planning half of seal_file_path is proved (region `plan`), its judging half is bounded (region `judge`: 307-308 of 308 obligations "
     "discharge: not counted) and the command loops, on all format-subset "
     "sequences of length 3 with content kept / altered / restored.",
     assumptions=["the session's new hash lists are disjoint from the loaded history's lists (ownership, structural)"],
